@@ -71,31 +71,31 @@
          'bound':'capacity 4, 1..4 elements; loops unwound 8 times', 'claims':'same as c17_vec_erase_c8 for a block of 4'}@*/
 
 /* ---- level 2: the interval-set operations (plain harness, Vector::insert/erase applied by contract) */
-/*@unit {'name':'c17_remove_c8', 'props':['C17'], 'entry':'h_remove', 'kind':'bounded', 'unwind':9, 'unwindset':['Zones_remove.0:7'], 'loop_contracts':False, 'defines':['NV=4','CAPV=8','VEC_BY_CONTRACT'], 'cost':50,
+/*@unit {'name':'c17_remove_c8', 'props':['C17'], 'entry':'h_remove', 'kind':'bounded', 'unwind':9, 'unwindset':['Zones_remove.0:7'], 'loop_contracts':False, 'defines':['NV=4','CAPV=8','L2_BY_CONTRACT'], 'cost':50,
          'bound':'at most 4 intervals before the call in a block of capacity 8 (no reallocation); main loop unwound 6 times, helper loops 8 times, unwinding assertions on',
          'replay':'c17_zones', 'witness_defines':[], 'witness_vars':['w_n','w_x','w_xm','w_c','w_sm','w_smx','w_pos','w_posm','w_a','w_b','w_pt'],
          'claims':'Zones::remove(x,xm) on a sorted, disjoint, in-bounds interval set leaves it sorted, disjoint and in bounds; afterwards no interval contains a point of the open range (x,xm); every point offered afterwards was offered before (nothing is re-opened); every point offered before and outside [x,xm] is still offered; weight sums stay positive; only the vector changes; Vector::insert/erase are called within their contracts'}@*/
-/*@unit {'name':'c17_remove_c4', 'props':['C17'], 'entry':'h_remove', 'kind':'bounded', 'unwind':9, 'unwindset':['Zones_remove.0:7'], 'loop_contracts':False, 'defines':['NV=4','CAPV=4','VEC_BY_CONTRACT'], 'cost':50,
+/*@unit {'name':'c17_remove_c4', 'props':['C17'], 'entry':'h_remove', 'kind':'bounded', 'unwind':9, 'unwindset':['Zones_remove.0:7'], 'loop_contracts':False, 'defines':['NV=4','CAPV=4','L2_BY_CONTRACT'], 'cost':50,
          'bound':'at most 4 intervals in an exact-size block of capacity 4: every split reallocates (storage moves, old block freed); loops as in c17_remove_c8',
          'replay':'c17_zones', 'witness_defines':[], 'witness_vars':['w_n','w_x','w_xm','w_c','w_sm','w_smx','w_pos','w_posm','w_a','w_b','w_pt'],
          'claims':'same as c17_remove_c8 when the split has to grow the vector: the iterator is re-seated on the new block and the freed block is never touched; with 4 live intervals any access past the live elements is outside the storage object'}@*/
-/*@unit {'name':'c17_insert_c8', 'props':['C17'], 'entry':'h_insert', 'kind':'bounded', 'unwind':9, 'unwindset':['Zones_insert.0:7'], 'loop_contracts':False, 'defines':['NV=4','CAPV=8','VEC_BY_CONTRACT'], 'cost':80,
+/*@unit {'name':'c17_insert_c8', 'props':['C17'], 'entry':'h_insert', 'kind':'bounded', 'unwind':9, 'unwindset':['Zones_insert.0:7'], 'loop_contracts':False, 'defines':['NV=4','CAPV=8','L2_BY_CONTRACT'], 'cost':80,
          'bound':'at most 4 intervals before the call in a block of capacity 8; main loop unwound 6 times, helper loops 8 times',
          'replay':'c17_zones', 'witness_defines':[], 'witness_vars':['w_n','w_x','w_xm','w_c','w_sm','w_smx','w_pos','w_posm','w_a','w_b','w_pt','w_ec','w_esm','w_esmx'],
          'claims':'Zones::insert(e) (weighted insert) keeps the interval set sorted, disjoint and in bounds and does not change the set of offered points (it never re-opens an excluded position and never loses a free one); a point strictly inside an interval and strictly inside e gets exactly e added to its three cost terms, a point strictly inside an interval and outside [e.x,e.xm] keeps its cost terms; weight sums stay positive for non-negative e.sm; only the vector changes'}@*/
-/*@unit {'name':'c17_insert_c4', 'props':['C17'], 'entry':'h_insert', 'kind':'bounded', 'unwind':9, 'unwindset':['Zones_insert.0:7'], 'loop_contracts':False, 'defines':['NV=4','CAPV=4','VEC_BY_CONTRACT'], 'cost':80,
+/*@unit {'name':'c17_insert_c4', 'props':['C17'], 'entry':'h_insert', 'kind':'bounded', 'unwind':9, 'unwindset':['Zones_insert.0:7'], 'loop_contracts':False, 'defines':['NV=4','CAPV=4','L2_BY_CONTRACT'], 'cost':80,
          'bound':'at most 4 intervals in an exact-size block of capacity 4: the first split reallocates; loops as in c17_insert_c8',
          'replay':'c17_zones', 'witness_defines':[], 'witness_vars':['w_n','w_x','w_xm','w_c','w_sm','w_smx','w_pos','w_posm','w_a','w_b','w_pt','w_ec','w_esm','w_esmx'],
          'claims':'same as c17_insert_c8 when a split has to grow the vector (iterators re-seated, freed block never touched)'}@*/
-/*@unit {'name':'c17_exclude_margins', 'props':['C17'], 'entry':'h_exclude_margins', 'kind':'bounded', 'unwind':9, 'unwindset':['Zones_remove.0:5','Zones_insert.0:8'], 'loop_contracts':False, 'defines':['NV=2','CAPV=8','VEC_BY_CONTRACT'], 'cost':90,
+/*@unit {'name':'c17_exclude_margins', 'props':['C17'], 'entry':'h_exclude_margins', 'kind':'bounded', 'unwind':9, 'unwindset':['Zones_remove.0:5','Zones_insert.0:8'], 'loop_contracts':False, 'defines':['NV=2','CAPV=8','L2_BY_CONTRACT'], 'cost':90,
          'bound':'at most 2 intervals before the call (at most 7 during it), capacity 8; loops unwound up to 8 times',
          'replay':'c17_zones', 'witness_defines':[], 'witness_vars':['w_n','w_x','w_xm','w_c','w_sm','w_smx','w_pos','w_posm','w_a','w_b','w_pt','w_axis','w_mlen','w_mwt'],
          'claims':'Zones::exclude_with_margins(xmin,xmax,axis) = remove + two margin-weight inserts: the set stays sorted, disjoint and in bounds, offers no point of (xmin,xmax), offers nothing that was not offered before, keeps every point outside [xmin,xmax], and keeps weight sums positive for a non-negative margin weight'}@*/
-/*@unit {'name':'c17_closest', 'props':['C17'], 'entry':'h_closest', 'kind':'bounded', 'unwind':9, 'loop_contracts':False, 'defines':['NV=6','CAPV=6'], 'cost':30,
+/*@unit {'name':'c17_closest', 'props':['C17'], 'entry':'h_closest', 'kind':'bounded', 'unwind':9, 'loop_contracts':False, 'defines':['NV=6','CAPV=6','L2_BY_CONTRACT'], 'cost':30,
          'bound':'at most 6 intervals in an exact-size block; all loops unwound 8 times',
          'replay':'c17_zones', 'witness_defines':[], 'witness_vars':['w_n','w_x','w_xm','w_c','w_sm','w_smx','w_pos','w_posm','w_a'],
          'claims':'Zones::closest(origin,cost) on a sorted disjoint set whose intervals have non-zero weight sums and finite linear terms: either reports cost -1 (no candidate; this is what ShiftCollider::resolve reads as "no free point on this axis") or returns a position that lies inside one of the free intervals; an empty set always reports -1; reads stay inside the live elements (iterators begin()-1 / start-1 are formed but never dereferenced); nothing is written but *cost'}@*/
-/*@unit {'name':'c17_find_under', 'props':['C17'], 'entry':'h_find_under', 'kind':'bounded', 'unwind':9, 'loop_contracts':False, 'defines':['NV=6','CAPV=6'], 'cost':10,
+/*@unit {'name':'c17_find_under', 'props':['C17'], 'entry':'h_find_under', 'kind':'bounded', 'unwind':9, 'loop_contracts':False, 'defines':['NV=6','CAPV=6','L2_BY_CONTRACT'], 'cost':10,
          'bound':'at most 6 intervals in an exact-size block; binary-search loop unwound 8 times',
          'claims':'Zones::find_exclusion_under(x) returns an iterator in [begin,end]; every interval before it ends at or before x, every interval after it starts after x, and the interval it addresses (if any) contains x or starts after x; operator[] is called with an index below size()'}@*/
 /*@unit {'name':'c17_initialise', 'props':['C17'], 'entry':'h_initialise', 'kind':'bounded', 'unwind':9, 'loop_contracts':False, 'defines':['NV=4','CAPV=8'], 'cost':20,
@@ -119,10 +119,12 @@ Exclusion *g_e;  Exclusion g_e0;          /* the interval an Exclusion method wo
 float *g_bc, *g_bp; float g_bc0, g_bp0;   /* track_cost: the caller's best cost / best position cells */
 
 /* ------------------------------------------------------------------ contracts: Exclusion methods (loop-free) */
+#define OUTCODE_PRE(e, val)     (FIN((e)->x) && FIN((e)->xm) && FIN(val))
+#define OUTCODE_POST(e, val, r) ((r) == ((((val) >= (e)->xm) ? 2 : 0) | (((val) < (e)->x) ? 1 : 0)))
 uint8 Exclusion_outcode(const Exclusion *self, float val)
-__CPROVER_requires(FIN(self->x) && FIN(self->xm) && FIN(val))
+__CPROVER_requires(OUTCODE_PRE(self, val))
 __CPROVER_assigns()
-__CPROVER_ensures(__CPROVER_return_value == (((val >= self->xm) ? 2 : 0) | ((val < self->x) ? 1 : 0)));
+__CPROVER_ensures(OUTCODE_POST(self, val, __CPROVER_return_value));
 
 Exclusion Exclusion_split_at(Exclusion *self, float p)
 __CPROVER_requires(self == g_e && g_e0.x == self->x && g_e0.xm == self->xm && g_e0.c == self->c && g_e0.sm == self->sm && g_e0.smx == self->smx && g_e0.open == self->open)
@@ -149,12 +151,13 @@ __CPROVER_requires(self->x <= self->xm && NNAN(self->sm) && self->sm != 0 && FIN
 __CPROVER_assigns()
 __CPROVER_ensures(self->x <= __CPROVER_return_value && __CPROVER_return_value <= self->xm);
 
+#define TRACK_PRE(e, origin, c0, p0)   (NNAN(c0) && NNAN(p0) && (e)->x <= (e)->xm && NNAN((e)->sm) && (e)->sm != 0 && FIN((e)->smx) && FIN(origin))
+#define TRACK_POST(e, c1, p1, c0, p0)  (((c1) == (c0) && (p1) == (p0)) || ((c1) < (c0) && (e)->x <= (p1) && (p1) <= (e)->xm))
 bool Exclusion_track_cost(const Exclusion *self, float *best_cost, float *best_pos, float origin)
-__CPROVER_requires(best_cost == g_bc && best_pos == g_bp && *best_cost == g_bc0 && *best_pos == g_bp0 && NNAN(g_bc0) && NNAN(g_bp0))
-__CPROVER_requires(self->x <= self->xm && NNAN(self->sm) && self->sm != 0 && FIN(self->smx) && FIN(origin))
+__CPROVER_requires(best_cost == g_bc && best_pos == g_bp && *best_cost == g_bc0 && *best_pos == g_bp0)
+__CPROVER_requires(TRACK_PRE(self, origin, g_bc0, g_bp0))
 __CPROVER_assigns(*best_cost, *best_pos)
-__CPROVER_ensures((*best_cost == g_bc0 && *best_pos == g_bp0)
-               || (*best_cost < g_bc0 && self->x <= *best_pos && *best_pos <= self->xm));
+__CPROVER_ensures(TRACK_POST(self, *best_cost, *best_pos, g_bc0, g_bp0));
 
 Exclusion Exclusion_weighted_XY(float xmin, float xmax, float f, float a0, float m, float xi, float ai, float c, bool nega)
 __CPROVER_requires(NNAN(xmin) && NNAN(xmax) && NNAN(f) && NNAN(m))
@@ -232,7 +235,7 @@ static void vec_snapshot(const Exclusions *v, const Exclusion *p)
 }
 
 /* ghost wrappers through which the extracted Zones code reaches the vector */
-#ifdef VEC_BY_CONTRACT
+#ifdef L2_BY_CONTRACT
 static Exclusion nondet_excl(void)
 { Exclusion e; e.x = nondet_float(); e.xm = nondet_float(); e.c = nondet_float(); e.sm = nondet_float(); e.smx = nondet_float(); e.open = nondet_bool(); return e; }
 /* contract application by hand: assert requires; havoc assigns (+ frees); assume ensures */
@@ -264,9 +267,26 @@ static Exclusion *Vector_erase_g(Exclusions *v, Exclusion *p)
     __CPROVER_assert(VEC_ERASE_POST_SHAPE(v, p, p), "hand-applied Vector::erase contract: the constructed shape is the one the ensures clauses fix");
     return p;
 }
+static uint8 Exclusion_outcode_g(const Exclusion *self, float val)
+{
+    __CPROVER_assert(OUTCODE_PRE(self, val), "precondition of the Exclusion::outcode contract (proved by c17_excl_ops)");
+    uint8 r = (uint8)nondet_u32();
+    __CPROVER_assume(OUTCODE_POST(self, val, r));
+    return r;
+}
+static bool Exclusion_track_cost_g(const Exclusion *self, float *best_cost, float *best_pos, float origin)
+{
+    const float c0 = *best_cost, p0 = *best_pos;
+    __CPROVER_assert(TRACK_PRE(self, origin, c0, p0), "precondition of the Exclusion::track_cost contract (proved by c17_track_cost)");
+    *best_cost = nondet_float(); *best_pos = nondet_float();                              /* assigns clause */
+    __CPROVER_assume(TRACK_POST(self, *best_cost, *best_pos, c0, p0));
+    return nondet_bool();
+}
 #else
 Exclusion *Vector_insert_g(Exclusions *v, Exclusion *p, const Exclusion x);
 Exclusion *Vector_erase_g(Exclusions *v, Exclusion *p);
+uint8 Exclusion_outcode_g(const Exclusion *self, float val);
+bool Exclusion_track_cost_g(const Exclusion *self, float *best_cost, float *best_pos, float origin);
 #endif
 
 /* ------------------------------------------------------------------ spec functions over an interval set (the oracle) */
@@ -322,13 +342,14 @@ static bool zones_pos_pre(const Zones *z)
 }
 
 /* ---- Zones::remove(x, xm) */
-#define REMOVE_PRE(z, x, xm)      (VEC_OK(&(z)->_exclusions) && VSZ(&(z)->_exclusions) <= NV && zones_wf(z) && zones_cost_wf(z) && NNAN(x) && NNAN(xm))
+#define ZONES_OK(z)               (VEC_OK(&(z)->_exclusions) && FIN((z)->_pos) && FIN((z)->_posm) && zones_wf(z))       /* finite bounds => every interval bound is finite */
+#define REMOVE_PRE(z, x, xm)      (ZONES_OK(z) && VSZ(&(z)->_exclusions) <= NV && zones_cost_wf(z) && NNAN(x) && NNAN(xm))
 #define REMOVE_POST_WF(z)         (VEC_OK(&(z)->_exclusions) && zones_wf(z))                                 /* sorted, disjoint, inside its bounds */
 #define REMOVE_POST_EXCL(cov, x, xm) (!(cov) || !((x) < g_pt && g_pt < (xm)))                               /* never offers a position of the excluded range */
 #define REMOVE_POST_MONO(cov)     (!(cov) || g_cov0)                                                        /* ... nor anything excluded earlier */
 #define REMOVE_POST_KEEP(cov, x, xm) (!(g_cov0 && !((x) <= g_pt && g_pt <= (xm))) || (cov))                 /* nothing outside the closed range is lost */
 /* ---- Zones::insert(e) */
-#define INSERT_PRE(z, e)          (VEC_OK(&(z)->_exclusions) && VSZ(&(z)->_exclusions) <= NV && zones_wf(z) && zones_cost_wf(z) \
+#define INSERT_PRE(z, e)          (ZONES_OK(z) && VSZ(&(z)->_exclusions) <= NV && zones_cost_wf(z) \
                                    && NNAN((e).x) && NNAN((e).xm) && FIN((e).sm) && FIN((e).smx) && FIN((e).c) && (e).sm >= 0)
 #define INSERT_POST_SAME(cov)     ((cov) == g_cov0)                                                         /* the set of offered positions is unchanged */
 /* cost terms: e is added exactly once on the overlap, nothing outside e changes (at: index of the interval around g_pt now) */
@@ -448,18 +469,18 @@ void Zones_insert(Zones *self, Exclusion e);
 void Zones_remove(Zones *self, float x, float xm);
 /*@extract {'file':'src/Intervals.cpp', 'sig': r'void Zones::insert\(Exclusion e\)', 'emit':'void Zones_insert(Zones *self, Exclusion e)',
    'subs':[[r'_exclusions\.(begin|end|size|clear)\(\)', r'Vector_\1(&self->_exclusions)', 0], [r'_exclusions\.(insert|erase)\(', r'Vector_\1_g(&self->_exclusions, ', 0], [r'_exclusions\.push_back\(', r'Vector_push_back(&self->_exclusions, ', 0],
-           [r'\be\.outcode\(', 'Exclusion_outcode(&e, ', 2], [r'\*i \+= e;', 'Exclusion_add(i, &e);', 3], [r'\*\+\+i \+= e;', 'Exclusion_add(++i, &e);', 1],
+           [r'\be\.outcode\(', 'Exclusion_outcode_g(&e, ', 2], [r'\*i \+= e;', 'Exclusion_add(i, &e);', 3], [r'\*\+\+i \+= e;', 'Exclusion_add(++i, &e);', 1],
            [r'\be\.left_trim\(', 'Exclusion_left_trim(&e, ', 2], [r'\bi->split_at\(', 'Exclusion_split_at(i, ', 4]],
    'self':['_pos','_posm']}@*/
 /*@extract {'file':'src/Intervals.cpp', 'sig': r'void Zones::remove\(float x, float xm\)', 'emit':'void Zones_remove(Zones *self, float x, float xm)',
    'subs':[[r'_exclusions\.(begin|end|size|clear)\(\)', r'Vector_\1(&self->_exclusions)', 0], [r'_exclusions\.(insert|erase)\(', r'Vector_\1_g(&self->_exclusions, ', 0], [r'_exclusions\.push_back\(', r'Vector_push_back(&self->_exclusions, ', 0],
-           [r'\bi->outcode\(', 'Exclusion_outcode(i, ', 2], [r'\bi->left_trim\(', 'Exclusion_left_trim(i, ', 1], [r'\bi->split_at\(', 'Exclusion_split_at(i, ', 1]],
+           [r'\bi->outcode\(', 'Exclusion_outcode_g(i, ', 2], [r'\bi->left_trim\(', 'Exclusion_left_trim(i, ', 1], [r'\bi->split_at\(', 'Exclusion_split_at(i, ', 1]],
    'self':['_pos','_posm']}@*/
 /*@extract {'file':'src/Intervals.cpp', 'sig': r'Zones::const_iterator Zones::find_exclusion_under\(float x\) const', 'emit':'const Exclusion *Zones_find_exclusion_under(const Zones *self, float x)',
-   'subs':[[r'_exclusions\.(begin|end|size|clear)\(\)', r'Vector_\1(&self->_exclusions)', 0], [r'_exclusions\[p\]\.outcode\(', 'Exclusion_outcode(Vector_at(&self->_exclusions, p), ', 1]]}@*/
+   'subs':[[r'_exclusions\.(begin|end|size|clear)\(\)', r'Vector_\1(&self->_exclusions)', 0], [r'_exclusions\[p\]\.outcode\(', 'Exclusion_outcode_g(Vector_at(&self->_exclusions, p), ', 1]]}@*/
 /*@extract {'file':'src/Intervals.cpp', 'sig': r'float Zones::closest\(float origin, float & cost\) const', 'emit':'float Zones_closest(const Zones *self, float origin, float *cost)',
    'subs':[[r'_exclusions\.(begin|end|size|clear)\(\)', r'Vector_\1(&self->_exclusions)', 0], [r'std::numeric_limits<float>::max\(\)', 'FLT_MAX', 2],
-           [r'\bfind_exclusion_under\(', 'Zones_find_exclusion_under(self, ', 1], [r'\bi->track_cost\(best_c, best_x, origin\)', 'Exclusion_track_cost(i, &best_c, &best_x, origin)', 2]],
+           [r'\bfind_exclusion_under\(', 'Zones_find_exclusion_under(self, ', 1], [r'\bi->track_cost\(best_c, best_x, origin\)', 'Exclusion_track_cost_g(i, &best_c, &best_x, origin)', 2]],
    'refs':['cost']}@*/
 /*@extract {'file':'src/inc/Intervals.h', 'ctor': True, 'sig': r'Zones::Zones\(\)', 'emit':'static void Zones_ctor(Zones *self)',
    'subs':[[r'_exclusions\.reserve\(', 'Vector_reserve(&self->_exclusions, ', 1]], 'self':['_margin_len','_margin_weight','_pos','_posm']}@*/
@@ -483,9 +504,11 @@ void Zones_remove(Zones *self, float x, float xm);
    'subs':[[r'\bremove\(', 'Zones_remove(self, ', 1], [r'\bweightedAxis\(', 'Zones_weightedAxis(self, ', 2]],
    'self':['_margin_len','_margin_weight']}@*/
 
-#ifndef VEC_BY_CONTRACT
+#ifndef L2_BY_CONTRACT
 Exclusion *Vector_insert_g(Exclusions *v, Exclusion *p, const Exclusion x) { return Vector_insert(v, p, x); }
 Exclusion *Vector_erase_g(Exclusions *v, Exclusion *p) { return Vector_erase(v, p); }
+uint8 Exclusion_outcode_g(const Exclusion *self, float val) { return Exclusion_outcode(self, val); }
+bool Exclusion_track_cost_g(const Exclusion *self, float *best_cost, float *best_pos, float origin) { return Exclusion_track_cost(self, best_cost, best_pos, origin); }
 #endif
 
 /* ------------------------------------------------------------------ harnesses */
@@ -681,7 +704,7 @@ void h_closest(void)
 {
     ZONES_INPUT
     (void)b;
-    __CPROVER_assume(VEC_OK(&z->_exclusions) && zones_wf(z) && zones_pos_pre(z) && FIN(a));
+    __CPROVER_assume(ZONES_OK(z) && zones_pos_pre(z) && FIN(a));
     GHOST_BEFORE
     vec_snapshot(&z->_exclusions, z->_exclusions.m_first);
     float *cost = malloc(sizeof(float)); __CPROVER_assume(cost != NULL);
@@ -698,7 +721,7 @@ void h_find_under(void)
 {
     ZONES_INPUT
     (void)b;
-    __CPROVER_assume(VEC_OK(&z->_exclusions) && zones_wf(z) && FIN(a) && FIN(z->_pos) && FIN(z->_posm));
+    __CPROVER_assume(ZONES_OK(z) && FIN(a));
     const Exclusion *it = Zones_find_exclusion_under(z, a);
     __CPROVER_assert(SAME(it, z->_exclusions.m_first) && OFF(it) >= 0 && OFF(it) <= OFF(z->_exclusions.m_last) && OFF(it) % ESZ == 0, "find_exclusion_under: result in [begin,end]");
     const size_t idx = (size_t)(it - z->_exclusions.m_first);
